@@ -142,6 +142,8 @@ pub fn instance_events(instance_element: SvgElement, start: usize, end: usize, c
 #[verifier::external_body]
 pub fn process_events(input: InputList, context: &mut TransformerContext) -> (r: Result<(OutputList, Option<BoundingBox>)>)
     ensures scope_frame(*old(context), *final(context)), final(context).config == old(context).config,
+        // every generator changes the innermost scope at most (C15.scope.outer_bindings_untouched, by induction over the nesting)
+        old(context).scope_stack.len() > 0 ==> final(context).scope_stack@.drop_last() == old(context).scope_stack@.drop_last(),
 { unimplemented!() }
 
 impl TransformerContext {
@@ -223,6 +225,7 @@ pub trait EventGen {
 //@item src/transform.rs :: trait EventGen :: fn generate_events
 //@ ensures
 //@ - scope_frame(*old(context), *final(context))    @@C15.scope.restored @@C18.vars.scope @@C10.failed_tag.no_trace
+//@ - old(context).scope_stack.len() > 0 ==> final(context).scope_stack@.drop_last() == old(context).scope_stack@.drop_last()    @@C15.scope.outer_bindings_untouched
 //@end
 }
 
@@ -247,11 +250,15 @@ impl EventGen for GroupElement {
 //@ replace[R-into] <<<events.push(OutputEvent::Empty(new_el));>>> => <<<events.push(ev_empty(new_el));>>>
 //@ replace[R-into] <<<events.push(OutputEvent::Start(new_el));>>> => <<<events.push(ev_start(new_el));>>>
 //@ replace[R-into] <<<events.push(OutputEvent::End(el_name));>>> => <<<events.push(ev_end(el_name));>>>
+//@ ensures
+//@ - r is Ok && old(context).scope_stack.len() > 0 ==> final(context).scope_stack@ == old(context).scope_stack@    @@C15.group.bindings_restored
 //@end
 }
 
 impl EventGen for SpecsElement {
 //@item src/transform.rs :: impl EventGen for SpecsElement :: fn generate_events
+//@ ensures
+//@ - r is Ok && old(context).scope_stack.len() > 0 ==> final(context).scope_stack@ == old(context).scope_stack@    @@C15.specs.bindings_restored
 //@end
 }
 
@@ -288,6 +295,7 @@ impl EventGen for VarElement {
 //@ iter it
 //@ invariant
 //@ - scope_frame(*old(context), *context)
+//@ - old(context).scope_stack.len() > 0 ==> context.scope_stack@.drop_last() == old(context).scope_stack@.drop_last()    @@C15.scope.outer_bindings_untouched
 //@ - context.config == old(context).config
 //@ - g_vars == it.history@ + vstd::std_specs::iter::IteratorSpec::remaining(&it.iter)
 //@ - within(g_vars, context.config.var_limit as nat)
@@ -307,6 +315,8 @@ impl EventGen for ReuseElement {
 //@ replace[R-ctor] <<<SvgElement::new("g", &[])>>> => <<<SvgElement::new_g()>>>
 //@ replace[R-ctor] <<<Position::from(&reuse_element)>>> => <<<position_from(&reuse_element)>>>
 //@ replace[R-abstract] <<<            let mut new_events = InputList::new();\n            let tag_name = instance_element.name.clone();\n            let mut start_ev = InputEvent::from(OutputEvent::Start(instance_element));\n            start_ev.index = start;\n            start_ev.alt_idx = Some(end);\n            new_events.push(start_ev);\n            new_events.extend(&InputList::from(&context.events[start + 1..end]));\n            let mut end_ev = InputEvent::from(OutputEvent::End(tag_name));\n            end_ev.index = end;\n            end_ev.alt_idx = Some(start);\n            new_events.push(end_ev);\n            process_events(new_events, context)>>> => <<<            let new_events = instance_events(instance_element, start, end, context);\n            process_events(new_events, context)>>>
+//@ ensures
+//@ - r is Ok && old(context).scope_stack.len() > 0 ==> final(context).scope_stack@ == old(context).scope_stack@    @@C15.reuse.bindings_restored
 //@end
 }
 } // verus!
